@@ -18,6 +18,15 @@ CHECKS = {
             'kernel sockets / libev replaced by the simulation; 1 ms tolerance; peers never forge replies',
             'Hypothesis world plans on virtual-time gevent + simulated network; exactly-once and deadline-band oracle',
             '5/C01', 'simnet'),
+    'C02': ('exploration',
+            'World plans tuned for concurrency and stale replies (distinct arguments incl. non-ASCII, multi-method interface, '
+            'pooled serial connections that are reused, many calls in flight on one mux connection with reordered replies and '
+            'reply contexts, timeouts shorter than some replies, kills between calls); every returned value must be the echo a '
+            'server computed for exactly that call\'s method and argument, and every request a server decoded must be an issued '
+            'call, at most once, with equal arguments.',
+            'peers never forge replies; no assertion on failed / timed-out calls',
+            'Hypothesis world plans; echo-of-own-argument oracle against independently decoding peers',
+            '5/C02', 'simnet'),
     'C03': ('exploration',
             'Generated dispatch/complete/down/up/join/leave histories against the real heap and aperture balancers built '
             'from their Builders; at every dispatch the stamped endpoint is compared with a reference model of outstanding '
@@ -88,6 +97,15 @@ CHECKS = {
             'forged replies name only reserved / never-allocated / already answered tags; sendall atomic; gate holds a frame before any byte',
             'Hypothesis op-list state machine with adversarial peer; tags decoded by independent codecs',
             '5/C11', 'simnet'),
+    'C12': ('exploration',
+            'World plans that put each call\'s deadline at a chosen hop (client open, pool queue, connect of a fresh pooled '
+            'connection, mux send queue held by a gate, on the wire), just before / after the hop completes; every write is '
+            'logged with a global sequence number and attributed to its call by a unique marker. No write of a call\'s request '
+            'after its TimeoutError; for ThriftMux a Tdiscarded naming exactly the written tag if the connection is still open, '
+            'and never a Tdiscarded for an unwritten tag.',
+            'sendall atomic; the gate only holds pings or calls without a deadline inside the run',
+            'Hypothesis world plans placing the deadline at each hop; write-after-timeout and Tdiscarded oracle on the net log',
+            '5/C12', 'simnet'),
     'C13': ('exploration',
             'Generated calls with drawn client ids, public message properties, deadlines and reply behaviours go through the '
             'real ThriftMux sink chain on the simulated socket; every frame the peer receives is decoded by an independent mux '
